@@ -324,6 +324,33 @@ func (tb *TB) val(v ssa.Value, e *Env) *Term {
 		if v.CommaOk {
 			return mk("lookup2", "", tb.Val(v.X, e), tb.Val(v.Index, e))
 		}
+		if mm, ok := v.X.(*ssa.MakeMap); ok {
+			if r := tb.mapLiteralLookup(mm, tb.Val(v.Index, e), e); r != nil {
+				return r
+			}
+		}
+		// a package-level map literal of constants that nothing writes, looked up under a constant key
+		if ld, ok := v.X.(*ssa.UnOp); ok && ld.Op == token.MUL {
+			if g, ok := ld.X.(*ssa.Global); ok && g.Pkg != nil && tb.W.Pkgs[g.Pkg.Pkg.Path()] != nil {
+				if key := tb.Val(v.Index, e); key.IsConst() && tb.W.GlobalNeverWritten(g) {
+					if ex, info := tb.W.GlobalInit(g.Pkg.Pkg.Path(), g.Name()); ex != nil {
+						if lit := EvalLit(ex, info); lit != nil && lit.Kind == "map" {
+							for i, k := range lit.Keys {
+								if k == nil || k.Kind != "const" || k.Const == nil || i >= len(lit.Elems) {
+									continue
+								}
+								if mk("const", k.Const.ExactString()).String() != key.String() {
+									continue
+								}
+								if el := lit.Elems[i]; el != nil && el.Kind == "const" && el.Const != nil {
+									return mk("const", el.Const.ExactString())
+								}
+							}
+						}
+					}
+				}
+			}
+		}
 		return mk("lookup", "", tb.Val(v.X, e), tb.Val(v.Index, e))
 	case *ssa.Slice:
 		return mk("slice", "", tb.Val(v.X, e), tb.optVal(v.Low, e), tb.optVal(v.High, e), tb.optVal(v.Max, e))
@@ -1502,4 +1529,39 @@ func (tb *TB) note(k string) {
 		tb.notes = map[string]bool{}
 	}
 	tb.notes[k] = true
+}
+
+// mapLiteralLookup: m[key] for a local map that is a literal — created, filled with constant keys in its own
+// block, and afterwards only read — and a key that is a constant: the value stored under that key.
+func (tb *TB) mapLiteralLookup(mm *ssa.MakeMap, key *Term, e *Env) *Term {
+	if !key.IsConst() || mm.Referrers() == nil {
+		return nil
+	}
+	var hit ssa.Value
+	for _, r := range *mm.Referrers() {
+		switch x := r.(type) {
+		case *ssa.MapUpdate:
+			if x.Map != ssa.Value(mm) || x.Block() != mm.Block() {
+				return nil
+			}
+			k, ok := x.Key.(*ssa.Const)
+			if !ok {
+				return nil
+			}
+			if tb.Val(k, e).String() == key.String() {
+				hit = x.Value
+			}
+		case *ssa.Lookup:
+			if x.X != ssa.Value(mm) {
+				return nil
+			}
+		case *ssa.DebugRef:
+		default:
+			return nil
+		}
+	}
+	if hit == nil {
+		return nil
+	}
+	return tb.Val(hit, e)
 }
